@@ -26,7 +26,10 @@
      sqdist, l1dist, nearest_sq, adj_diff                       distances
      xval (XInf | XFin q), ind_make (constructor of the four classes)
      eps_calculate, gd_calculate, igd_calculate, spacing_calculate
-     eps_indicator, gd_indicator, igd_indicator                 constructor + calculate on a fresh store *)
+     eps_indicator, gd_indicator, igd_indicator                 constructor + calculate on a fresh store
+     gd_rows, igd_rows, spacing_rows                            every intermediate distance, in call order (correspondence)
+     lmax, lmin, dev, eps_textbook, sqd, nsq, gd_terms_textbook,
+     l1d, spacing_sq_textbook, spacing_ds_textbook              the textbook formulas (specification side, end of file) *)
 From Coq Require Import ZArith QArith Qabs Bool List.
 Import ListNotations.
 From PV Require Import Base.Num.
